@@ -9,6 +9,7 @@ vacuous/broken), what (one line for the evidence)."""
 CHECKS = {}
 
 CHECKS["C14"] = {
+    "prepare_late": True,
     "assumptions": [
         "go/ssa translation of the Go source; engine semantics of the SSA instructions; z3",
     ],
@@ -130,6 +131,12 @@ CHECKS["C04"] = {
          "what": "fault injection {error, panic} at every resolver / directive / argument-directive position of 8 operation families (single faults quick, pairs thorough) on the generated executor; worker_limit 0/1/2"},
     ],
 }
+
+CHECKS["C14"]["prepare"] = probes.prepare
+CHECKS["C14"]["harnesses"].append(
+    {"probe": "core", "harness": "Harness_C14_generated", "setup": "Setup_C14_generated", "reach": ["c14.custom", "c14.default"], "workers": 4, "sched": "first",
+     "configs_quick": ["single"], "configs_thorough": ["single", "follow", "funcsyn"], "quick": {"sample_models": 40},
+     "what": "generated Complexity() switch: 8 (type, field, raw arguments) cases x custom function registered or not, child complexity and returned cost symbolic at full width"})
 
 CHECKS["C04"]["harnesses"].append(
     {"probe": "core", "harness": "Harness_C04_argPanic", "setup": "Setup_C04_faults", "reach": ["c04.argpanic"], "workers": 6, "sched": "first",
@@ -253,3 +260,11 @@ CHECKS["C02"] = {
          "what": "generated field_*_args / unmarshalInput* / unmarshalN/O* on a 23-case argument corpus (literals, variables, defaults, explicit null, nested inputs, single-value-to-list incl. nested lists, enum, custom scalar, failures): resolver receives exactly the annotated coerced values"},
     ],
 }
+
+CHECKS["C04"]["harnesses"].append(
+    dict(_HTTP, harness="Harness_C04_servePanic", setup="Setup_C04_servePanic", reach=["c04.serve"], quick={"sample_models": 10},
+         what="Server.ServeHTTP when serialising the response panics (GET / POST / application/graphql): error body, recover hook once, no escape"))
+CHECKS["C07"]["harnesses"].append(
+    dict(_HTTP, harness="Harness_C07_noPersistentWrites", setup="Setup_C07_noPersistentWrites", reach=["c07.frozen"], no_native_samples=False, quick={"sample_models": 10, "sample_every": 9},
+         what="after a warm-up request the server/executor/transport object graph and every package-level variable of gqlgen's graphql packages and of gqlparser are frozen: one request (4 transports x 10 documents x 2 header configurations) must not store into any of it"))
+
